@@ -53,6 +53,7 @@ def _bundles(ka, wa, kb, wb, kc, wc, f2, f3, fan, m2):
     T.add(s0)
     if fan:
         T.add(h.BundleInstance(name="s1", of=M))
+    T._verif_M = M
     return T
 
 
@@ -72,7 +73,7 @@ def _expected(ka, wa, kb, wb, kc, wc, f1, f2, f3, fan, role):
 WHY = {}
 
 
-def _run(ka, wa, kb, wb, kc, wc, f1, m1, f2, m2, f3, fan, role, is_port):
+def _run(ka, wa, kb, wb, kc, wc, f1, m1, f2, m2, f3, fan, role, is_port, via=False):
     env.reset_all()
     T = _bundles(ka, wa, kb, wb, kc, wc, f2, f3, fan, m2)
     r = None if role == 0 else (ROLES.Host if role == 1 else ROLES.Device)
@@ -87,10 +88,22 @@ def _run(ka, wa, kb, wb, kc, wc, f1, m1, f2, m2, f3, fan, role, is_port):
     top = C
     if is_port:
         P = h.Module(name="P")
-        P.pb = h.BundleInstance(of=T)
-        P.c = C(bb=P.pb)
+        if via:
+            # the parent pairs the child's bundle port with an ANONYMOUS bundle: a signal for the leaf, and whole bundle
+            # instances (named differently from the members they fill) for the sub-bundles
+            P.pa = h.Signal(width=wa)
+            P.ms = h.BundleInstance(of=T._verif_M)
+            members = dict(a=P.pa, s0=P.ms)
+            if fan:
+                P.ms1 = h.BundleInstance(of=T._verif_M)
+                members["s1"] = P.ms1
+            P.c = C(bb=h.AnonymousBundle(**members))
+        else:
+            P.pb = h.BundleInstance(of=T)
+            P.c = C(bb=P.pb)
         top = P
     pkg = h.to_proto(top)
+    via = bool(via)
     args = env.deep_realize((ka, wa, kb, wb, kc, wc, f1, f2, f3, fan, role, is_port))
     with env.notrace():
         env.COUNTS["reached"] += 1
@@ -119,7 +132,10 @@ def _run(ka, wa, kb, wb, kc, wc, f1, m1, f2, m2, f3, fan, role, is_port):
                 return False
             for path, w, d in exp:
                 t = conns["bb_" + "_".join(path)]
-                if t.WhichOneof("stype") != "sig" or t.sig != "pb_" + "_".join(path) or psw.get(t.sig) != w:
+                pname = "pb_" + "_".join(path)
+                if via:  # a -> pa; s0.<...> -> ms_<...>; s1.<...> -> ms1_<...>
+                    pname = "pa" if path == ("a",) else "_".join(({"s0": "ms", "s1": "ms1"}[path[0]],) + path[1:])
+                if t.WhichOneof("stype") != "sig" or t.sig != pname or psw.get(t.sig) != w:
                     WHY["why"] = f"member {path} paired with {t}"
                     return False
             if pp.ports:
@@ -138,20 +154,20 @@ def _run(ka, wa, kb, wb, kc, wc, f1, m1, f2, m2, f3, fan, role, is_port):
 
 
 @harness("C10", also=("C11",),
-         args="ka: int, wa: int, kb: int, wb: int, kc: int, wc: int, f1: bool, m1: bool, f2: bool, m2: bool, f3: bool, fan: bool, role: int, is_port: bool",
+         args="ka: int, wa: int, kb: int, wb: int, kc: int, wc: int, f1: bool, m1: bool, f2: bool, m2: bool, f3: bool, fan: bool, role: int, is_port: bool, via: bool",
          pre=[f"0 <= ka < {KINDS}", f"0 <= kb < {KINDS}", f"0 <= kc < {KINDS}", "1 <= wa", "1 <= wb", "1 <= wc", "0 <= role <= 2"],
-         tiers={"quick": {"timeout": 170, "pre": ["wa <= 2 and wb == 1 and wc == 1", "kb == kc or kb == 0", "m1 == False or f1 == False", "m2 == False"],
+         tiers={"quick": {"timeout": 170, "pre": ["wa <= 2 and wb == 1 and wc == 1", "kb == kc or kb == 0", "m1 == False or f1 == False", "m2 == False", "via == False or (is_port == True and f2 == False and f3 == False and m1 == False)"],
                           "parts": parts_product(parts_over("ka", range(KINDS)), [("port", "is_port == True"), ("int", "is_port == False and role == 0 and f1 == False and f2 == False and f3 == False")])},
-                "thorough": {"timeout": 600, "pre": ["wa <= 3 and wb <= 2 and wc <= 3"],
+                "thorough": {"timeout": 600, "pre": ["wa <= 3 and wb <= 2 and wc <= 3", "via == False or is_port == True"],
                              "parts": parts_product(parts_over("ka", range(KINDS)), parts_over("kb", range(KINDS)), parts_over("kc", range(KINDS)),
                                                     [("port_r0", "is_port == True and role == 0"), ("port_r1", "is_port == True and role == 1"), ("port_r2", "is_port == True and role == 2"),
                                                      ("int", "is_port == False and role == 0")])}},
-         sample=(4, 2, 0, 1, 1, 2, True, False, True, False, True, True, 1, True),
-         bounds="bundle tree of depth 3 (leaf + sub-bundle per level), optional fan-out 2 at the top; 7 leaf kinds per level (input, output, inout, undirected port, 2 role-directed, plain); leaf widths <= 2 (quick) / <= 3; flips at all three levels by constructor flag and by flipped(); role of the port instance in {none, Host, Device}; port vs internal instantiation; parent connecting its own bundle to the child's bundle port",
+         sample=(4, 2, 0, 1, 1, 2, True, False, True, False, True, True, 1, True, True),
+         bounds="bundle tree of depth 3 (leaf + sub-bundle per level), optional fan-out 2 at the top; 7 leaf kinds per level (input, output, inout, undirected port, 2 role-directed, plain); leaf widths <= 2 (quick) / <= 3; flips at all three levels by constructor flag and by flipped(); role of the port instance in {none, Host, Device}; port vs internal instantiation; parent connecting its own bundle, or an anonymous bundle of a signal and differently named whole bundle instances, to the child's bundle port",
          generalises="flip flags (parity), leaf kinds, widths, role", outside="deeper trees, fan-out 3; roles on nested sub-instances")
-def bundle_ports(ka, wa, kb, wb, kc, wc, f1, m1, f2, m2, f3, fan, role, is_port):
+def bundle_ports(ka, wa, kb, wb, kc, wc, f1, m1, f2, m2, f3, fan, role, is_port, via):
     P = env.pick
     a = (P(ka, 0, KINDS - 1), P(wa, 1, 3), P(kb, 0, KINDS - 1), P(wb, 1, 3), P(kc, 0, KINDS - 1), P(wc, 1, 3),
-         bool(f1), bool(m1), bool(f2), bool(m2), bool(f3), bool(fan), P(role, 0, 2), bool(is_port))
+         bool(f1), bool(m1), bool(f2), bool(m2), bool(f3), bool(fan), P(role, 0, 2), bool(is_port), bool(via))
     with env.notrace():  # flags, kinds and small widths: the solver's role is exhaustive enumeration of the box
         return _run(*a)
